@@ -3,6 +3,7 @@ C14 lemmas, part 3: per-field, per-type and per-module equivalences, and the ass
 `check p = [] ↔ Realisable p`.
 -/
 import Emboss.Lemmas.ConstraintsFields
+import Emboss.Lemmas.ConstraintsOrder
 namespace Emboss.Constraints
 open Emboss.Generated
 
@@ -256,59 +257,63 @@ theorem backEndsOfType_nil (exp : List String) (t : TypeInfo) :
   simp only [backEndsOfType, attrsOfTypeInfo, List.append_eq_nil_iff, backEndErrs_nil,
     List.flatMap_eq_nil_iff, List.mem_append, List.mem_flatMap]
   constructor
-  · rintro ⟨⟨h1, h2⟩, h3⟩ a (( ha | ⟨f, hf, ha⟩) | ⟨v, hv, ha⟩)
+  · rintro ⟨⟨h2, h3⟩, h1⟩ a (( ha | ⟨f, hf, ha⟩) | ⟨v, hv, ha⟩)
     · exact h1 a ha
     · exact h2 f hf a ha
     · exact h3 v hv a ha
   · intro h
-    exact ⟨⟨fun a ha => h a (Or.inl (Or.inl ha)), fun f hf a ha => h a (Or.inl (Or.inr ⟨f, hf, ha⟩))⟩,
-      fun v hv a ha => h a (Or.inr ⟨v, hv, ha⟩)⟩
+    exact ⟨⟨fun f hf a ha => h a (Or.inl (Or.inr ⟨f, hf, ha⟩)),
+      fun v hv a ha => h a (Or.inr ⟨v, hv, ha⟩)⟩, fun a ha => h a (Or.inl (Or.inl ha))⟩
 
 theorem moduleOK_iff (m : Module) :
     (checkAttrList AttrTable.moduleAttrs [] m.attrs = [] ∧ verifyBackEnds m = [] ∧
-      m.staticRefs.flatMap (fun b => if b then [] else [EK.staticRef]) = []) ↔ ModuleOK m := by
+      staticRefErrs m = [] ∧ gateErrs false m = [] ∧ gateErrs true m = []) ↔ ModuleOK m := by
+  rw [gateErrs_nil]
   simp only [checkAttrList_ok, verifyBackEnds, List.append_eq_nil_iff, backEndErrs_nil,
-    List.flatMap_eq_nil_iff, backEndsOfType_nil]
+    staticRefErrs, List.flatMap_eq_nil_iff, walk_nil, backEndsOfType_nil, noVisit,
+    and_true]
   have hb : (∀ b ∈ m.staticRefs, (if b = true then ([] : List EK) else [EK.staticRef]) = []) ↔
       ∀ b ∈ m.staticRefs, b = true := by
     refine forall_congr' fun b => forall_congr' fun _ => ?_
     cases b <;> simp
   rw [hb]
   constructor
-  · rintro ⟨a, ⟨b1, b2⟩, r⟩; exact ⟨a, ⟨b1, b2⟩, r⟩
-  · intro h; exact ⟨h.attrs, h.backEnds, h.staticRefs⟩
+  · rintro ⟨a, ⟨b1, b2⟩, r, g⟩; exact ⟨a, ⟨b1, b2⟩, r, g⟩
+  · intro h; exact ⟨h.attrs, h.backEnds, h.staticRefs, h.gated⟩
 
 theorem check_nil_iff (p : Program) :
     check p = [] ↔
-      (passEarly p = [] ∧ passAttrs p = [] ∧ passVerify p = [] ∧ passConstraints p = []) := by
+      (passEarly p = [] ∧ passAttrs p = [] ∧ passVerify p = [] ∧ passConstraints p = [] ∧
+        passDeferred p = []) := by
   unfold check
   by_cases h1 : passEarly p = []
   · by_cases h2 : passAttrs p = []
     · by_cases h3 : passVerify p = []
-      · simp [h1, h2, h3]
+      · by_cases h4 : passConstraints p = []
+        · simp [h1, h2, h3, h4]
+        · simp [h1, h2, h3, h4]
       · simp [h1, h2, h3]
     · simp [h1, h2]
   · simp [h1]
 
 theorem check_iff_realisable (p : Program) (wf : ∀ c ∈ allTypes p, TypeWF c.2) :
     check p = [] ↔ Realisable p := by
-  rw [check_nil_iff]
-  simp only [passEarly, passAttrs, passVerify, passConstraints, List.append_eq_nil_iff,
-    List.flatMap_eq_nil_iff]
+  rw [check_nil_iff, passEarly_nil, passAttrs_nil, passVerify_nil, passConstraints_nil]
+  simp only [earlyByEntity, attrsByEntity, verifyByEntity, constraintsByEntity, passDeferred,
+    List.append_eq_nil_iff, List.flatMap_eq_nil_iff]
   constructor
-  · rintro ⟨e, ⟨ma, ta⟩, ⟨mb, tv⟩, tc, sr⟩
-    refine ⟨fun m hm => (moduleOK_iff m).1 ⟨ma m hm, mb m hm, ?_⟩, fun c hc => ?_⟩
-    · simp only [List.flatMap_eq_nil_iff]; exact sr m hm
-    · exact (typeOK_iff p c.1 c.2 (wf c hc)).1 ⟨by simpa [List.flatMap_eq_nil_iff] using e c hc,
-        ta c hc, tv c hc, tc c hc⟩
+  · rintro ⟨e, ⟨ma, ta⟩, ⟨mb, tv⟩, ⟨⟨tc, sr⟩, g⟩, gd⟩
+    refine ⟨fun m hm => (moduleOK_iff m).1 ⟨ma m hm, mb m hm, sr m hm, g m hm, gd m hm⟩,
+      fun c hc => ?_⟩
+    exact (typeOK_iff p c.1 c.2 (wf c hc)).1 ⟨by simpa [List.flatMap_eq_nil_iff] using e c hc,
+      ta c hc, tv c hc, tc c hc⟩
   · rintro ⟨hm, ht⟩
     have T := fun c hc => (typeOK_iff p c.1 c.2 (wf c hc)).2 (ht c hc)
     have M := fun m hmm => (moduleOK_iff m).2 (hm m hmm)
-    refine ⟨fun c hc => by simpa [List.flatMap_eq_nil_iff] using (T c hc).1,
+    exact ⟨fun c hc => by simpa [List.flatMap_eq_nil_iff] using (T c hc).1,
       ⟨fun m hmm => (M m hmm).1, fun c hc => (T c hc).2.1⟩,
       ⟨fun m hmm => (M m hmm).2.1, fun c hc => (T c hc).2.2.1⟩,
-      fun c hc => (T c hc).2.2.2, fun m hmm => ?_⟩
-    have := (M m hmm).2.2
-    simpa [List.flatMap_eq_nil_iff] using this
+      ⟨⟨fun c hc => (T c hc).2.2.2, fun m hmm => (M m hmm).2.2.1⟩,
+        fun m hmm => (M m hmm).2.2.2.1⟩, fun m hmm => (M m hmm).2.2.2.2⟩
 
 end Emboss.Constraints
